@@ -104,6 +104,11 @@ def gen_options(cls: str, rng) -> Dict[str, Any]:
         heads = rng.choice([1, 2])
         o = {"hidden_size": heads * rng.choice([2, 4]), "vocab_size": rng.choice([11, 17]), "layers": rng.choice([1, 2, 3]), "heads": heads,
              "dropout_p": rng.choice([0.0, 0.0, 0.2])}
+        r = rng.random()
+        if r < 0.35:  # the documented rule with non-default arguments
+            o["residual_scaling"] = ["rule", rng.choice([0.25, 0.5, 2.0, 3.0]), rng.choice([0.5, 2.0, 1.0])]
+        elif r < 0.6:  # the caller's own function of (index, count)
+            o["residual_scaling"] = ["custom", round(rng.uniform(0.1, 0.9), 3), round(rng.uniform(0.01, 0.3), 3)]
     return o
 
 
@@ -134,6 +139,8 @@ def build(cls: str, opts: Dict[str, Any], uu, torch):
         kw["weight"] = torch.ones(5, dtype=torch.float64)
     if cls in ("Linear", "LinearReadout", "Conv1d", "LayerNorm", "Embedding"):
         kw["dtype"] = torch.float64
+    if "residual_scaling" in kw:
+        kw["residual_scaling"] = _residual_fn(kw["residual_scaling"])
     m = getattr(uu, cls)(**kw)
     return m.to(torch.float64)
 
@@ -178,10 +185,41 @@ def make_input(cls: str, opts: Dict[str, Any], lead: int, gen, torch, m):
     raise AssertionError(cls)
 
 
-def functional_call(cls: str, m, args, U, torch):
-    """The harness's own functional-form computation, written from the API reference using only public attributes."""
-    import einops
+_FROM_CALL = ("mult", "constraint", "approximate", "dim", "p", "eps", "padding_idx", "max_norm", "norm_type", "ignore_index", "reduction", "groups")
 
+
+def _residual_fn(spec):
+    """residual_scaling option: None = library default; ['rule', mult, ratio] = the documented rule; ['custom', a, b] = tau(i, n) = a + b*i"""
+    from unit_scaling.core.functional import transformer_residual_scaling_rule
+
+    if spec is None:
+        return transformer_residual_scaling_rule()
+    if spec[0] == "rule":
+        return transformer_residual_scaling_rule(residual_mult=spec[1], residual_attn_ratio=spec[2])
+    a, b = spec[1], spec[2]
+    return lambda i, n: a + b * i
+
+
+def functional_call(cls: str, m, args, U, torch, opts=None):
+    """The harness's own functional-form computation, written from the API reference. Leaf modules: the module's public
+    attributes (their options are cross-checked against the torch.nn twin built from the CONSTRUCTOR arguments). Composite
+    modules (MHSA, TransformerLayer, TransformerDecoder) have no torch twin: their hyper-parameters are taken from the
+    constructor arguments `opts`, the module only lends its parameters - an option the constructor drops or stores wrongly
+    therefore shows as a difference."""
+    import einops
+    opts = opts or {}
+    real = m
+
+    class _H:
+        """the module, except that scalar options named in the constructor call are read from THAT call (an option stored
+        wrongly at construction would otherwise be invisible: forward() and this form would both read the wrong attribute)"""
+        def __getattr__(self, k):
+            if k in _FROM_CALL and k in opts and not str(k).startswith("__"):
+                return opts[k]
+            return getattr(real, k)
+
+    if cls not in ("MLP", "MHSA", "TransformerLayer", "TransformerDecoder"):
+        m = _H()
     x = args[0]
     if cls == "GELU":
         return U.gelu(x, mult=m.mult, constraint=m.constraint, approximate=m.approximate)
@@ -215,39 +253,45 @@ def functional_call(cls: str, m, args, U, torch):
         g = U.linear(x, m.linear_gate.weight, None, None)
         return U.linear(U.silu_glu(a, g), m.linear_2.weight, None, None)
     if cls == "MHSA":
-        return _mhsa(m, x, U, einops)
+        return _mhsa(m, x, U, einops, {"heads": opts["heads"], "is_causal": opts["is_causal"], "dropout_p": opts.get("dropout_p", 0.0), "mult": opts.get("mult", 1.0)})
     if cls == "TransformerLayer":
-        return _tlayer(m, x, U, einops)
+        return _tlayer(m, x, U, einops, {"heads": opts["heads"], "is_causal": opts["is_causal"], "dropout_p": opts.get("dropout_p", 0.0), "mult": 1.0,
+                                         "mhsa_tau": opts["mhsa_tau"], "mlp_tau": opts["mlp_tau"]})
     if cls == "TransformerDecoder":
         h = U.embedding(x, m.embedding.weight)
-        for layer in m.layers:
-            h = _tlayer(layer, h, U, einops)
+        fn = _residual_fn(opts.get("residual_scaling"))
+        n = opts["layers"]
+        if len(m.layers) != n:
+            raise AssertionError(f"decoder built {len(m.layers)} layers for layers={n}")
+        for i, layer in enumerate(m.layers):
+            h = _tlayer(layer, h, U, einops, {"heads": opts["heads"], "is_causal": True, "dropout_p": opts.get("dropout_p", 0.0), "mult": 1.0,
+                                              "mhsa_tau": fn(2 * i, 2 * n), "mlp_tau": fn(2 * i + 1, 2 * n)})
         h = U.rms_norm(h, tuple(m.final_norm.normalized_shape), m.final_norm.weight, m.final_norm.eps)
         return U.linear_readout(h, m.projection.weight, None, None)
     raise AssertionError(cls)
 
 
-def _mhsa(m, x, U, einops):
+def _mhsa(m, x, U, einops, hp):
     qkv = U.linear(x, m.linear_qkv.weight, None, "to_output_scale")
-    q, k, v = einops.rearrange(qkv, "b s (z h d) -> z b h s d", h=m.heads, z=3)
-    o = U.scaled_dot_product_attention(q, k, v, dropout_p=m.dropout_p, is_causal=m.is_causal, mult=m.mult)
+    q, k, v = einops.rearrange(qkv, "b s (z h d) -> z b h s d", h=hp["heads"], z=3)
+    o = U.scaled_dot_product_attention(q, k, v, dropout_p=hp["dropout_p"], is_causal=hp["is_causal"], mult=hp["mult"])
     o = einops.rearrange(o, "b h s d -> b s (h d)")
     return U.linear(o, m.linear_o.weight, None, "to_output_scale")
 
 
-def _tlayer(m, x, U, einops):
-    r, s = U.residual_split(x, tau=m.mhsa_tau)
+def _tlayer(m, x, U, einops, hp):
+    r, s = U.residual_split(x, tau=hp["mhsa_tau"])
     r = U.rms_norm(r, tuple(m.mhsa_norm.normalized_shape), None, m.mhsa_norm.eps)
-    r = _mhsa(m.mhsa, r, U, einops)
-    r = U.dropout(r, m.dropout_p, m.training)
-    x = U.residual_add(r, s, tau=m.mhsa_tau)
-    r, s = U.residual_split(x, tau=m.mlp_tau)
+    r = _mhsa(m.mhsa, r, U, einops, hp)
+    r = U.dropout(r, hp["dropout_p"], m.training)
+    x = U.residual_add(r, s, tau=hp["mhsa_tau"])
+    r, s = U.residual_split(x, tau=hp["mlp_tau"])
     r = U.rms_norm(r, tuple(m.mlp_norm.normalized_shape), None, m.mlp_norm.eps)
     a = U.linear(r, m.mlp.linear_1.weight, None, None)
     g = U.linear(r, m.mlp.linear_gate.weight, None, None)
     r = U.linear(U.silu_glu(a, g), m.mlp.linear_2.weight, None, None)
-    r = U.dropout(r, m.dropout_p, m.training)
-    return U.residual_add(r, s, tau=m.mlp_tau)
+    r = U.dropout(r, hp["dropout_p"], m.training)
+    return U.residual_add(r, s, tau=hp["mlp_tau"])
 
 
 def make_twin(cls: str, opts: Dict[str, Any], m, torch):
@@ -361,7 +405,11 @@ def run_case(case: Dict[str, Any], ctx) -> None:
         return
     a2 = fresh_args()
     torch.manual_seed(seed)
-    y2 = functional_call(cls, m, a2, U, torch)
+    try:
+        y2 = functional_call(cls, m, a2, U, torch, opts)
+    except AssertionError as e:
+        ctx.violation(f"{key}:constructor-option-not-honoured", str(e), opts=opts)
+        return
     ctx.count("functional:bit-compared")
     up = torch.randn(y1.shape, generator=torch.Generator().manual_seed(seed + 1), dtype=y1.dtype)
     default_opts = all(v == d for v, d in _defaults(cls, opts))
